@@ -1,5 +1,7 @@
 import RisorModel.C04.Model
 import RisorModel.Generated.C04
+import RisorModel.C04.Host
+import RisorModel.Generated.C04Host
 /-!
 C04 ties: facts regenerated from op/op.go and vm/vm.go on this run against the reviewed
 tables the model was written from.  `specOpTable`/`specVmShapes` were frozen from the tree
@@ -151,5 +153,40 @@ theorem irregular_arms :
     (Risor.Generated.C04.vmEffects.filter (fun (_, eff, _) => eff.isNone)).map (·.1) =
       ["BUILD_LIST", "BUILD_MAP", "BUILD_SET", "BUILD_STRING", "CALL", "FOR_ITER", "FROM_IMPORT", "HALT",
        "IMPORT", "LOAD_CLOSURE", "PARTIAL", "RETURN_VALUE", "SWAP", "UNPACK"] := by decide
+
+/-! ### host entry points (Host.lean): the facts of vm/vm.go the entry-point machine assumes,
+regenerated by extract/c04host.go on this run -/
+
+/-- vm.sp is written in exactly four places: resetForNewCode (`= -1`), pop, push and resumeFrame;
+    in particular neither start, stop nor activateCode restores it -/
+theorem host_spWrites_match : Risor.Generated.C04Host.spWrites = Host.reviewedSpWrites := rfl
+
+/-- runCodeInternal calls resetForNewCode under the single guard `resetState && vm.startCount > 1`,
+    with the bare call as the guard's body: on every start after the first, unconditionally -/
+theorem host_resetGuards_match :
+    Risor.Generated.C04Host.resetGuards = Host.reviewedResetGuards ∧ Risor.Generated.C04Host.resetUnguarded = 0 :=
+  ⟨rfl, rfl⟩
+
+/-- the Run path drops what the previous run left before it activates the main code -/
+theorem host_runDrops_match : Risor.Generated.C04Host.runLoops.contains Host.reviewedDropLoop = true := by decide
+
+/-- Run enters runCodeInternal without, RunCode with resetState; Call enters callFunction between
+    start and stop; runCodeInternal activates frame 0 and evaluates -/
+theorem host_entryCalls_match : Risor.Generated.C04Host.entryCalls = Host.reviewedEntryCalls := rfl
+
+/-- callFunction saves sp once, restores it in its deferred function (resumeFrame, then the pop
+    loop only when resultErr is set) and pops the result it returns; resumeFrame as reviewed -/
+theorem host_call_match :
+    Risor.Generated.C04Host.callSaves = Host.reviewedCallSaves ∧
+    Risor.Generated.C04Host.callRestore = Host.reviewedCallRestore ∧
+    Risor.Generated.C04Host.callReturns = Host.reviewedCallReturns ∧
+    Risor.Generated.C04Host.resumeFrameBody = Host.reviewedResumeFrame := ⟨rfl, rfl, rfl, rfl⟩
+
+/-- the constants of the entry-point machine ARE what the regenerated facts say: reset
+    unconditional, sp reset to -1, Run drops -/
+theorem implCfg_tie :
+    Host.cfgOfFacts Risor.Generated.C04Host.resetGuards Risor.Generated.C04Host.resetUnguarded
+      Risor.Generated.C04Host.resetSp Risor.Generated.C04Host.runLoops = Host.implCfg := by decide
+
 
 end Risor.C04
